@@ -252,6 +252,9 @@ def check_unkillable(case):
         if i in case['hang']:
           V.VEvent(s).wait()   # never set: an uninterruptible blocking call - a kill cannot be delivered
           log.append(('td-returned', i))
+        elif i in case.get('late', ()):
+          s.sleep(2.0 + 0.001)   # overruns plug_teardown_timeout_s by a hair: returns while it is being abandoned
+          log.append(('td-returned', i))
       classes.append(type('HPlug%d' % i, (htf.plugs.BasePlug,), {'tearDown': td}))
 
     def body(test, **plugs):
@@ -267,10 +270,14 @@ def check_unkillable(case):
     ret = test.execute()
     return {'ret': ret, 'log': log, 'outcome': got[0].outcome.name if got else None, 'end': s.now}
 
-  s = V.Scheduler(plan=plan, time_limit=1e5, max_steps=100000)
+  if case.get('late'):
+    from openhtf.util import threads as _threads  # pylint: disable=g-import-not-at-top
+    V.monitor_lines(V.code_objects_of(_threads.KillableThread, htf_plug_manager()))
+  s = V.Scheduler(plan=plan, time_limit=1e5, max_steps=100000, trace=bool(case.get('trace')))
   res, exc = s.run(lambda: fn(s), watchdog_s=20.0)
-  r.nontrivial = case['plugs'] >= 2 and bool(case['hang'])
-  r.classes = ['unkillable-teardown', 'plugs:%d' % case['plugs'], 'hangs:%d' % len(case['hang'])]
+  r.nontrivial = case['plugs'] >= 2 and bool(case['hang'] or case.get('late'))
+  r.classes = ['unkillable-teardown' if not case.get('late') else 'late-teardown', 'plugs:%d' % case['plugs'], 'hangs:%d' % len(case['hang'])]
+  r.sched = s
   if s.failure is not None:
     if s.failure[0] in ('deadlock', 'steplimit'):
       r.bad('C08/hang-on-abandoned-teardown', 'execute() never returned: %s case=%r' % (s.failure[1][:400], case))
@@ -287,16 +294,22 @@ def check_unkillable(case):
     r.bad('C08/teardown-fault-changes-outcome', 'outcome %s, expected %s; case=%r' % (res['outcome'], want, case))
   if not any(e[0] == 'cb' for e in res['log']):
     r.bad('C08/no-callback-after-hang', repr(res['log']))
-  bound = 2.0 * len(case['hang']) + 5.0
+  bound = 2.0 * (len(case['hang']) + len(case.get('late', ()))) + 5.0
   if res['end'] > bound:
     r.bad('C08/abandon-too-late', 'execute() returned at virtual %.1fs, bound %.1fs' % (res['end'], bound))
   return r
+
+
+def htf_plug_manager():
+  import openhtf.plugs as plugs_  # pylint: disable=g-import-not-at-top
+  return plugs_.PlugManager
 
 
 def plan(tier, seed):
   n = 150 if tier == 'quick' else 2500
   jobs = [{'kind': 'hyp', 'name': 'hyp%d' % i, 'hseed': seed * 1000 + i, 'n': n} for i in range(16)]
   jobs.append({'kind': 'unkillable', 'name': 'unkillable'})
+  jobs.append({'kind': 'late', 'name': 'late'})
   return jobs
 
 
@@ -318,6 +331,25 @@ def run_job(job, acct):
             for sig, detail in r.violations:
               (acct.known if sig in known else acct.violation)(sig, case, detail)
     acct.exhaustive_parts.append('unkillable tearDown: all subsets of hanging plugs for 1-3 plugs x {phase passes, phase raises} (virtual time)')
+    return
+  if job['kind'] == 'late':
+    # a tearDown that returns while it is being abandoned: the executor is stalled (descheduled for 2 ms) at every
+    # line of PlugManager / KillableThread it executes, so that the tearDown thread exits between any two of them
+    for nplugs, late in ((2, [0]), (2, [1]), (3, [0, 2])):
+      base = {'unkillable': 1, 'plugs': nplugs, 'hang': [], 'late': late, 'raise_in_phase': False}
+      r0 = check_unkillable(dict(base, trace=True))
+      acct.case(base, r0.nontrivial, r0.classes)
+      for sig, detail in r0.violations:
+        (acct.known if sig in known else acct.violation)(sig, base, detail)
+      pts = [k for k, tidx, tag in r0.sched.tags if tag and tag[0] == 'line' and tag[1] in (
+          'kill', 'async_raise', 'tear_down_plugs', '_is_thread_proc_running', 'is_alive')]
+      for k in pts:
+        case = dict(base, plan={str(k): ['stall', 0.002]})
+        r = check_unkillable(case)
+        acct.case(case, r.nontrivial, r.classes + ['stall'])
+        for sig, detail in r.violations:
+          (acct.known if sig in known else acct.violation)(sig, case, detail)
+    acct.exhaustive_parts.append('late tearDown: executor stalled 2 ms at every line of tear_down_plugs / kill / async_raise')
     return
   counter = {'variants': 0}
 
